@@ -91,8 +91,14 @@ class Linear:
 
 @dataclass
 class TextTable:
-    """scales: (lower, upper, text); internal type must be integer for the generated families"""
+    """scales: (lower, upper, text); internal type must be integer for the generated families.
+    inv: text -> COMPU-INVERSE-VALUE of the scale with that text (the internal value to be used when the text is encoded;
+    a scale without entry has no COMPU-INVERSE-VALUE: the ODX rule then takes its LOWER-LIMIT)"""
     scales: List[Tuple[int, int, str]]
+    inv: Optional[dict] = None
+
+    def inverse(self, lo, text):
+        return (self.inv or {}).get(text, lo)
     tag = "texttable"
 
 
